@@ -44,7 +44,7 @@ var paraAlphabet = []string{
 var codeAlphabet = paraAlphabet
 
 // reduced alphabets for one more symbol of depth
-var paraCore = []string{"*", "_", "`", "#", "-", ">", "<", "[", "]", "(", "\\", "&", "\t", " ", "\n", "a"}
+var paraCore = []string{"*", "`", "#", "-", ">", "<", "[", "]", "\\", "&", "\t", " ", "\n", "a"}
 var codeCore = []string{"`", "<", "\\", "\t", " ", "\n", "a"}
 
 // placement is a template "pre{{ s }}post". For code placements pre is
@@ -394,6 +394,9 @@ func tagDiff(want, got []string) string {
 	if b.Len() == 0 {
 		return ":reordered"
 	}
+	if strings.Contains(b.String(), "+pre") {
+		return "+code+pre" // a code block appeared; whether the paragraph was split too is secondary
+	}
 	return b.String()
 }
 
@@ -559,7 +562,11 @@ func spaces(tier string) []kit.Space {
 					o.Detail = fmt.Sprintf("placement %s, template %q\ns = %q (minimal trigger %q)\nrendered Markdown %q\nconverter goldmark CommonMark\n%s", p.name, p.pre+"{{ s }}"+p.post, v, core, rendered, detail)
 					return o
 				}
-				// informational: GFM (what cmd/scriggo converts with); not part of the statement
+				// informational: GFM (what cmd/scriggo converts with); not part of the
+				// statement; evaluated on the full-alphabet spaces only
+				if tag != "" {
+					return o
+				}
 				if e, _ := st.verdict(gfm, v, rendered); e != "" {
 					core := st.minimalCore(gfm, v, e)
 					gfmMu.Lock()
@@ -598,7 +605,7 @@ func main() {
 			"reference converter: goldmark v1.7.16, CommonMark defaults, html.WithUnsafe so raw HTML is visible; its HTML is tokenised with x/net/html",
 			"whitespace normalisation applied to both sides: tab and U+00A0 count as space, per-line trim, soft line breaks, blank lines carry no text",
 			"code blocks: blank lines before/after the block are not content (CommonMark 4.4)",
-			"GFM (what cmd/scriggo uses) is evaluated too but only reported in coverage.gfm_only_deviations, the statement names CommonMark",
+			"GFM (what cmd/scriggo uses) is evaluated too (full-alphabet spaces) but only reported in coverage.gfm_only_deviations, the statement names CommonMark",
 			"cases are rendered 64 at a time by a template that repeats the placement 64 times between separator lines (a self-check at start-up compares it with the single-placement template on ~120 values per placement); failing cases are re-rendered alone for minimisation",
 			"strings longer than the bound, other placements (headings, list items, block quotes, tables) and HTML/Markdown typed values are not explored",
 		},
